@@ -59,6 +59,7 @@ type paState struct {
 	configs []cdrive.Config
 	maxLen  int
 	maxPlan int
+	extend  bool
 
 	mu         sync.Mutex
 	problems   []string
@@ -137,7 +138,8 @@ func (s *paState) handle(worker int, progs []*cdrive.ProgInfo) {
 	var script cdrive.Script
 	expect := make([]int, len(b.Progs))
 	for i, pi := range b.Progs {
-		j := cdrive.EnumeratePlans(pi, s.maxLen, s.maxPlan)
+		j := cdrive.EnumeratePlans(pi, s.maxLen, s.maxPlan, s.extend)
+		pi.Release()
 		jobs[i] = j
 		script.Section(i, j.Body)
 		expect[i] = cdrive.PlanResultSize * len(j.Plans)
@@ -147,7 +149,7 @@ func (s *paState) handle(worker int, progs []*cdrive.ProgInfo) {
 			s.capped.Add(1)
 		}
 		for _, p := range append(j.InterpBugs, j.Problems...) {
-			s.problem("interpreter / harness: %s\n%s", p, pi.P.Src)
+			s.problem("interpreter / harness: %s\n%s", p, pi.Src)
 		}
 		s.mu.Lock()
 		for k, v := range j.Suspensions {
@@ -177,9 +179,9 @@ func (s *paState) handle(worker int, progs []*cdrive.ProgInfo) {
 			s.crashKinds[cfg.Name+" "+c.Kind]++
 			s.mu.Unlock()
 			if c.Kind == "watchdog" {
-				s.r.Violation("parta|c-hang|"+strings.Join(cdrive.Constructs(pi.P.Src), ","),
+				s.r.Violation("parta|c-hang|"+strings.Join(cdrive.Constructs(pi.Src), ","),
 					"the compiled coroutine did not finish plans that all terminate in the reference interpreter",
-					paWitness{Part: "a", Family: pi.Family, Tags: pi.Tags, Program: pi.P.Src, Config: cfg.Name, Observed: strings.Split(c.Stderr, "\n")})
+					paWitness{Part: "a", Family: pi.Family, Tags: pi.Tags, Program: pi.Src, Config: cfg.Name, Observed: strings.Split(c.Stderr, "\n")})
 			}
 		}
 		for i := range b.Progs {
@@ -252,7 +254,7 @@ func (s *paState) compare(b *cdrive.Batch, cfg cdrive.Config, prog int, j *cdriv
 	s.mu.Unlock()
 	if take {
 		k := len(j.Plans) - 1
-		s.r.Sample(map[string]any{"part": "a", "family": pi.Family, "program_sha1": pi.P.ID, "source": pi.P.Src, "plans_run": len(j.Plans), "last_plan": j.Plans[k].String(),
+		s.r.Sample(map[string]any{"part": "a", "family": pi.Family, "program_sha1": pi.ID, "source": pi.Src, "plans_run": len(j.Plans), "last_plan": j.Plans[k].String(),
 			"last_plan_result": paDescribe(got[k]), "suspensions_by_kind": j.Suspensions})
 	}
 }
@@ -269,7 +271,12 @@ func (s *paState) report(b *cdrive.Batch, cfg cdrive.Config, prog int, j *cdrive
 	}
 	reported[sig] = true
 	pl := j.Plans[k]
-	w := paWitness{Part: "a", Family: pi.Family, Tags: pi.Tags, Program: pi.P.Src, Config: cfg.Name, Oracle: oracle, Plan: pl}
+	if err := pi.Acquire(); err != nil {
+		s.problem("recompilation failed: %v", err)
+		return
+	}
+	defer pi.Release()
+	w := paWitness{Part: "a", Family: pi.Family, Tags: pi.Tags, Program: pi.Src, Config: cfg.Name, Oracle: oracle, Plan: pl}
 	w.Observed = append(w.Observed, "plan: "+pl.String())
 	text, prob := b.Trace(cfg, prog, cdrive.PlanBody(pi, &pl))
 	w.Observed = append(w.Observed, "generated C under the plan: "+paDescribe(x))
@@ -333,7 +340,7 @@ func partA(r *ev.Run, until time.Time) partAResult {
 	s.maxLen, s.maxPlan = 3, 2500
 	if r.Thorough() {
 		s.configs = []cdrive.Config{cdrive.AsanO1, cdrive.GccO2}
-		s.maxLen, s.maxPlan = 6, 12000
+		s.extend = true
 	}
 	tools.Warm(s.configs...)
 	cut := atomic.Bool{}
@@ -382,8 +389,8 @@ func partA(r *ev.Run, until time.Time) partAResult {
 	return partAResult{
 		evals: s.evals.Load(), nontrivial: s.nontrivial.Load(), programs: s.programs.Load(),
 		complete: !cut.Load() && s.capped.Load() == 0,
-		rule: fmt.Sprintf("part (a), generated coroutines: every accepted program of the progen families coro / calls / io with a public coroutine x every plan of interp.CoroPlans(maxLen=%d, at most %d per program): source streams over {00,01,7F,80,FF} up to maxLen bytes, every cut of the stream into chunks (plus a leading empty delivery), destination room granted as {64}, {0,1,1,..}, {1,1,..}, and across suspensions the caller re-passes the buffers as they are, compacts them, passes other scalar arguments or makes an interleaved public call; "+
-			"evaluations += plan results compared per C configuration; non-trivial += (program, plan) pairs with at least one suspension crossed whose compiled run equals the ideal run and the all-at-once run", s.maxLen, s.maxPlan),
+		rule: fmt.Sprintf("part (a), generated coroutines: every accepted program of the progen families coro / calls / io with a public coroutine x every plan of interp.CoroPlans(maxLen=%d, at most %d per program): source streams over {00,01,FF} up to maxLen bytes, every cut of the stream into chunks (plus a leading empty delivery), destination room granted as {64} or {0,1,1,..}, and across suspensions the caller re-passes the buffers as they are, compacts them, passes other scalar arguments or makes an interleaved public call; thorough adds (cdrive.ExtendPlans, extended=%v) all 4-byte streams over {01,FF} in every cut and 5..8-byte streams fed 1 byte at a time / in halves, room {64} and {1,1,..}; "+
+			"evaluations += plan results compared per C configuration; non-trivial += (program, plan) pairs with at least one suspension crossed whose compiled run equals the ideal run and the all-at-once run", s.maxLen, s.maxPlan, s.extend),
 		extra: map[string]any{"partA": map[string]any{
 			"programs": s.programs.Load(), "plans_run_on_c": s.plans.Load(), "coroutine_calls_in_the_interpreter": s.calls.Load(),
 			"pairs_chunked_vs_one_shot": s.oneshotPairs.Load(), "pairs_c_vs_ideal": s.idealPairs.Load(),
